@@ -38,6 +38,11 @@ next request on it (keepalive_agreement: server_closes_after_promising_keepalive
 may stop sending once the final response is there, but then the request is incomplete and it must not write another one to
 that connection (keepalive_agreement, key request_written_after_incomplete_request_body:*).  A client close while request
 bytes were still unsent/unflushed is the client abandoning its upload - no disagreement.
+
+And (6) the 100-continue expectation written by the caller as a field line (headers=[("Expect", "100-Continue")], name and
+token in several letter cases; the token is case-insensitive, RFC 9110 10.1.1) instead of expect100=True, against routes
+with the default expect handler: judged by the unchanged rules - the handler must run and see the field as sent and the
+whole body (request_roundtrip / response_roundtrip / exchange_completes).
 """
 from __future__ import annotations
 
@@ -100,7 +105,9 @@ RULE = (
     "suffix / past-the-end / unsatisfiable, positions around chunk_size and the file end; sometimes If-Range) to a "
     "FileResponse with or without enable_compression(); ~12% have one exchange (mostly not the last) with a body of 300 "
     "bytes..64 KiB whose handler answers after reading 0/1/100/1000 body bytes, with the client-to-server direction cut into "
-    "several segments so that the rest of the body arrives in further reads after the response was written; batch "
+    "several segments so that the rest of the body arrives in further reads after the response was written; ~8% (HTTP/1.1) "
+    "send one or two bodies with an 'Expect: 100-continue' field line spelled by the caller (name and token in several "
+    "letter cases) instead of expect100=True; batch "
     "'reset' adds one reset/EOF at a byte offset or loop step. Non-trivial: >=2 exchanges completed and at least one "
     "connection was reused or closed by a decision of either end. Distinct = interleaving signature."
 )
@@ -427,6 +434,8 @@ def gen(rng, tier, index):
         add_file_range(rng, scn)
     if rng.random() < P_EARLY_ANSWER:
         add_early_answer(rng, scn)
+    if rng.random() < P_EXPECT_SPELLED:
+        add_expect_spelled(rng, scn)
     return scn
 
 
@@ -669,6 +678,41 @@ def early_mode(rq):
     return None
 
 
+# ---- extension 6: the caller spells the expectation itself (headers={"Expect": "100-Continue"}) instead of expect100=True
+P_EXPECT_SPELLED = 0.12   # applies to HTTP/1.1 sessions only (70 % of them): ~8 % of all scenarios
+EXPECT_NAMES = ["Expect", "Expect", "expect", "EXPECT"]
+# the expectation token is case-insensitive (RFC 9110 10.1.1), and so is its reading by aiohttp's own client
+EXPECT_VALUES = ["100-continue", "100-Continue", "100-Continue", "100-CONTINUE", "100-cOnTiNuE"]
+
+
+def add_expect_spelled(rng, scn):
+    """One or two exchanges of an HTTP/1.1 session carry a body and an 'Expect' field line given through headers= (in
+    one of several letter cases of name and token) instead of expect100=True.  It is the same request: the client holds
+    the body back until '100 Continue', the server's default expect handler sends it, the handler sees head and body."""
+    if scn["version"] != "1.1":
+        return
+    for i in _ext_targets(rng, scn):
+        rq = scn["exchanges"][i]["req"]
+        if early_mode(rq) is not None:
+            continue
+        if rq["method"].upper() == "HEAD":
+            rq["method"] = "POST"
+        if rq["body"]["kind"] == "none":
+            rq["body"] = {"kind": "bytes", "k": rng.randrange(251), "size": rng.choice([1, 17, 300, 2047, 2049])}
+            rq["json_api"] = False
+        if rq["chunked"] is False:
+            rq["chunked"] = None
+        rq["expect100"] = False
+        hs = rq["headers"] = [h for h in rq["headers"] if h[0].lower() != "expect"]
+        hs.insert(rng.randrange(len(hs) + 1), [rng.choice(EXPECT_NAMES), rng.choice(EXPECT_VALUES)])
+
+
+def asks_continue(rq):
+    """does this request carry the 100-continue expectation - through expect100=True or through a field line the
+    caller wrote (any letter case of the token)?"""
+    return bool(rq["expect100"]) or any(n.lower() == "expect" and v.strip().lower() == "100-continue" for n, v in rq["headers"])
+
+
 def chunked_complete(data):
     """does this byte string hold a complete chunked body (RFC 9112 7.1: chunks, last-chunk, trailer section, CRLF)?"""
     pos, n = 0, len(data)
@@ -827,6 +871,15 @@ def shrink(scn):
                 yield _with_ex(scn, i, dict(ex, req=dict(rq, **{k: v})))
         if rq["srv_read"].startswith("prefix:"):
             yield _with_ex(scn, i, dict(ex, req=dict(rq, srv_read="ignore")))
+        for j, h in enumerate(rq["headers"]):
+            if h[0].lower() == "expect":
+                rest = rq["headers"][:j] + rq["headers"][j + 1:]
+                # the plain API for the same request, then the plainest spelling of name and token
+                yield _with_ex(scn, i, dict(ex, req=dict(rq, headers=rest, expect100=True)))
+                yield _with_ex(scn, i, dict(ex, req=dict(rq, headers=rest)))
+                for simpler in (["Expect", "100-continue"], ["Expect", h[1]], [h[0], "100-continue"], ["Expect", "100-Continue"]):
+                    if h != simpler:
+                        yield _with_ex(scn, i, dict(ex, req=dict(rq, headers=rq["headers"][:j] + [simpler] + rq["headers"][j + 1:])))
         if len(rq["headers"]) > 1:
             for j in range(len(rq["headers"])):
                 yield _with_ex(scn, i, dict(ex, req=dict(rq, headers=rq["headers"][:j] + rq["headers"][j + 1:])))
@@ -2408,7 +2461,7 @@ def run(scn, ch, log=False):
                                 # (an early answer completes while the request's writer task is still pending, the same
                                 # deferred release as with expect100: C02-F13)
                                 key_ = ("connection_not_reusable_when_response_completed:"
-                                        + ("expect100" if rq["expect100"] else "early_answer" if hrec.get("early") else _req_class(rq)))
+                                        + ("expect100" if asks_continue(rq) else "early_answer" if hrec.get("early") else _req_class(rq)))
                             violate("keepalive_agreement", key_,
                                     f"{desc}: both ends chose keep-alive by their headers, the server kept the connection open and no "
                                     f"fault or idle timer fired, but the client "
@@ -2424,7 +2477,7 @@ def run(scn, ch, log=False):
             pend = next((r for r in results if not r["done"] and r["error"] is None), None)
             if pend is not None and not f4_seen and pend["i"] < poison["from"]:
                 rq, rs = exchanges[pend["i"]]["req"], exchanges[pend["i"]]["resp"]
-                cls = f"expect100:HTTP/{scn['version']}" if rq["expect100"] else _req_class(rq)
+                cls = f"expect100:HTTP/{scn['version']}" if asks_continue(rq) else _req_class(rq)
                 # white-box classification only (the verdict "blocked" does not depend on it): a parser that holds
                 # received bytes back although nobody paused reading will never be resumed
                 for n_, c_ in sorted(conns.items()):
@@ -2467,6 +2520,10 @@ def run(scn, ch, log=False):
             "expect100": sum(1 for r in seen if r["ex"] is not None and exchanges[r["ex"]]["req"]["expect100"]),
             "exec_jobs": loop.executor_jobs,
         }
+        n_spelled = sum(1 for r in seen if r["ex"] is not None and not exchanges[r["ex"]]["req"]["expect100"]
+                        and asks_continue(exchanges[r["ex"]]["req"]))
+        if n_spelled:
+            probes["expect_spelled_by_caller_reached_handler"] = n_spelled
         n_refused = sum(1 for r in seen if r.get("refused"))
         if n_refused:
             probes["expect_refused"] = n_refused
@@ -2806,7 +2863,7 @@ def _req_class(rq):
         parts.append(f"chunked={rq['chunked']}")
     if rq["compress"]:
         parts.append("compress")
-    if rq["expect100"]:
+    if asks_continue(rq):
         parts.append("expect100")
     return "+".join(parts)
 
